@@ -315,6 +315,41 @@ def run(rep: Report, tier: str) -> None:
                         rep.add(Finding("R27.3", f"R27.3/cache/{mq}/{gq.rsplit('.', 1)[-1]}", fn.module.rel, n.lineno, mq,
                                         f"`{src(n)[:90]}` keeps a converted structure in the process-global `{gq}`: a later call that presents a different structure under the same key "
                                         f"(a re-issued artefact, a Schema and a DSD sharing a URN) is answered with the components of the first one"))
+    # the same pattern with a LOCAL container that lives across the iterations of a loop (several structures converted in one call)
+    for mq in sorted(on_path):
+        fn = P.functions[mq]
+        tainted2: Set[str] = set()
+
+        def derived2(e: ast.AST) -> bool:
+            for x in ast.walk(e):
+                if isinstance(x, ast.Name) and x.id in tainted2:
+                    return True
+                if isinstance(x, ast.Call) and any(t in on_path for t in P.resolve_call(fn, x)):
+                    return True
+            return False
+        for _ in range(4):
+            for n in walk_no_nested(fn.node):
+                if isinstance(n, (ast.Assign, ast.AnnAssign)) and n.value is not None and derived2(n.value):
+                    for t in (n.targets if isinstance(n, ast.Assign) else [n.target]):
+                        for x in ast.walk(t):
+                            if isinstance(x, ast.Name) and isinstance(x.ctx, ast.Store):
+                                tainted2.add(x.id)
+        for n in walk_no_nested(fn.node):
+            if not isinstance(n, ast.Assign):
+                continue
+            for t in n.targets:
+                for tt in (t.elts if isinstance(t, (ast.Tuple, ast.List)) else [t]):
+                    if isinstance(tt, ast.Subscript) and isinstance(tt.value, ast.Name) and derived2(n.value):
+                        cont = tt.value.id
+                        read_back = any((isinstance(x, ast.Subscript) and isinstance(x.ctx, ast.Load) and isinstance(x.value, ast.Name) and x.value.id == cont)
+                                        or (isinstance(x, ast.Compare) and any(isinstance(o, (ast.In, ast.NotIn)) for o in x.ops) and any(isinstance(c_, ast.Name) and c_.id == cont for c_ in x.comparators))
+                                        or (isinstance(x, ast.Call) and isinstance(x.func, ast.Attribute) and x.func.attr in ("get", "setdefault") and isinstance(x.func.value, ast.Name) and x.func.value.id == cont)
+                                        for x in walk_no_nested(fn.node))
+                        nglob += 1
+                        if read_back:
+                            rep.add(Finding("R27.3", f"R27.3/cache/{mq}/local", fn.module.rel, n.lineno, mq,
+                                            f"`{src(n)[:90]}` keeps a converted structure in `{cont}` under `{src(tt.slice)[:40]}` and reads it back for a later structure: two structures "
+                                            f"that agree on that key but differ elsewhere (same id, other version / agency) get the components of the first one"))
     rep.instance("R27.3", "process-global stores on the conversion path", nontrivial=False, sample={"stores examined": nglob, "functions on the path": len(on_path)})
     rep.analysed = {"dtype_keys": len(dmap), "pysdmx_datatype_members": len(dtype_enum), "roles": sorted(rmap), "docs_types": len(doc_types)}
     rep.assumptions = ["pysdmx enums are read from the installed package source (members = class-level NAME = 'value' assignments)",
